@@ -39,15 +39,25 @@ TZ_RUN = 32      # consecutive requests of one oracle process that share a zone
 
 
 def strip_tz(req):
-    if req.startswith("@"):
-        return req.split(" ", 1)[1] if " " in req else ""
+    """the request without its leading environment tokens (@tz=…, @procs=…)"""
+    while req.startswith("@"):
+        req = req.split(" ", 1)[1] if " " in req else ""
     return req
 
 
-def with_tz(tz, req):
-    if not tz or req.startswith("@") or needs_hooks(req):
+def with_tz(tz, req, procs=0):
+    if req.startswith("@") or needs_hooks(req):
         return req
-    return "@tz=%s %s" % (tz, req)
+    if tz:
+        req = "@tz=%s %s" % (tz, req)
+    if procs:
+        req = "@procs=%d %s" % (procs, req)
+    return req
+
+
+def _procs(run):
+    """GOMAXPROCS of a run of requests: one run in eight on a single processor, one in eight on two"""
+    return {3: 1, 6: 2}.get(run % 8, 0)
 
 
 def nchunks(nreq, nworkers=None):
@@ -60,10 +70,10 @@ def decorate_tz(requests, groups):
         return requests, groups
     L = len(TZS)
     if groups:
-        gs = [[with_tz(TZS[(gi + j // TZ_RUN) % L], r) for j, r in enumerate(g)] for gi, g in enumerate(groups)]
+        gs = [[with_tz(TZS[(gi + j // TZ_RUN) % L], r, _procs(gi + j // TZ_RUN)) for j, r in enumerate(g)] for gi, g in enumerate(groups)]
         return [r for g in gs for r in g], gs
     n = nchunks(len(requests))
-    return [with_tz(TZS[((i // n) // TZ_RUN + i % n) % L], r) for i, r in enumerate(requests)], None
+    return [with_tz(TZS[((i // n) // TZ_RUN + i % n) % L], r, _procs((i // n) // TZ_RUN + i % n)) for i, r in enumerate(requests)], None
 
 
 ORACLE_WINDOW = 64    # requests the oracle reads at a time (harness/cmd/oracle/main.go windowSize)
@@ -335,10 +345,12 @@ def run_stream(name, requests, workdir, nworkers=NCPU, compare=None, weight=None
                       "requests_asked_concurrently_first": sum(r[1][2] for r in rcs)}
     res.local_zones = {}
     for r in requests:
-        z = r.split(" ")[0][4:] if r.startswith("@tz=") else "(zone of the check: UTC)"
+        zt = [t for t in r.split(" ")[:2] if t.startswith("@tz=")]
+        z = zt[0][4:] if zt else "(zone of the check: UTC)"
         res.local_zones[z] = res.local_zones.get(z, 0) + 1
     seen = set()
     selfcases = []
+    reasks = 0
     for (rq, im, mo), ch in zip(files, chunks):
         mo_lines = open(mo).read().split("\n")
         im_lines = open(im).read().split("\n") if not model_only else mo_lines
@@ -350,7 +362,8 @@ def run_stream(name, requests, workdir, nworkers=NCPU, compare=None, weight=None
             ml = mo_lines[k] if k < len(mo_lines) else "<no output>"
             parts = il.split("\t")
             iresp = parts[0]
-            if any(item.startswith("!MORE ") for item in parts[1:]) and len(res.props) < 5000:
+            if any(item.startswith("!MORE ") for item in parts[1:]) and len(res.props) < 5000 and reasks < 25:
+                reasks += 1
                 # more failing inputs than listed: ask again for the complete list (bounded: a change
                 # that breaks millions of inputs needs no complete list)
                 _, raw = ask(ORACLE_HOOKS if needs_hooks(req) else ORACLE, [req], env={"ORACLE_PROP_CAP": "10000000"})
